@@ -11,5 +11,5 @@ INVARIANT BarBounded
 INVARIANT BarExact
 INVARIANT EmitInv
 PROPERTY AppendOnly
-PROPERTY Terminates
+PROPERTY TerminatesMC
 CHECK_DEADLOCK FALSE
